@@ -132,6 +132,26 @@ theorem evicted_removed_from_pending (s : Pool) (receipts : List Nat) (txs : Lis
     rw [hh, List.mem_filter] at this
     have h2 := this.2; simp at h2; exact absurd hm h2.2
 
+/-- The corner the receipt loop does not reach: a block **without receipts** still has its evicted list applied —
+evicted cache updated, hashes removed from pending — and nothing else changes (no guard clause in front of the
+eviction bookkeeping; chain-driven: a block whose only transaction was not addable). -/
+theorem mark_no_receipts_still_evicts (s : Pool) (txs : List Tx) (evicted : List Nat) :
+    s.markExecuted [] txs evicted = ((s.evictAll evicted).removeHashes evicted, false) ∧
+    (∀ h ∈ evicted, (s.markExecuted [] txs evicted).1.contains h = false) ∧
+    (s.markExecuted [] txs evicted).1.executed = s.executed := by
+  have e : s.markExecuted [] txs evicted = ((s.evictAll evicted).removeHashes evicted, false) := by
+    simp [Pool.markExecuted, Pool.markExecutedZ]
+  refine ⟨e, ?_, by rw [e]; rfl⟩
+  intro h hm
+  rw [e]
+  cases hc : ((s.evictAll evicted).removeHashes evicted).contains h with
+  | false => rfl
+  | true =>
+    have := mem_hashes_removeHashes.mp (contains_iff.mp hc)
+    exact absurd hm this.2
+
+example : (((Pool.empty 5).addTransaction ⟨1, 11, [], 0, 0, 0⟩).1.markExecuted [] [] [11]).1.pending = [] := by decide
+
 /-- …but, as the code is (the check against the evicted cache in `AddTransaction` is commented out), an
 evicted transaction that was not executed is admitted again when submitted again: the cache is write-only.
 (Not a C17 violation: the transaction was never executed.) -/
